@@ -183,6 +183,8 @@ pub struct Summary {
     pub big_content: usize,
     pub nonutf8_content: usize,
     pub resyncs: usize,
+    /// pre-populated directories whose name is a (shadowed) file in a deeper layer
+    pub shadowed_file_dirs: usize,
 }
 
 fn levels(t: &Tree) -> usize {
@@ -408,6 +410,7 @@ pub fn run_plan(
     let mut trace: Vec<String> = vec![];
     let mut sum = Summary::default();
     sum.prefix_pair_present = pool_has_prefix_pair(&pool);
+    sum.shadowed_file_dirs = prepop.iter().filter(|(_, p, n)| matches!(n, Node::File(_)) && prepop.iter().any(|(_, q, m)| q == p && matches!(m, Node::Dir))).count();
     let ctx = Ctx { pool: &pool, depth, uni: &uni };
 
     // initial state
